@@ -3,3 +3,10 @@ HOOK_COMMITS = []
 NOTES = "Model-based verification with explicit TLA+ specifications (spec/), TLC, and conformance checks in both directions; see DESIGN.md."
 NOT_APPLICABLE = {}
 CHECKS = {}
+
+CHECKS["C04"] = dict(
+    technique="TLA+ spec (Abf.tla: ABF mechanism vs. history-based property) model-checked with TLC; TLC-generated behaviours replayed into the real library; recorded executions validated by TLC against AbfTrace.tla",
+    text="TLC exhaustively checks, for every parameter record (force-timing convention, subtractAppliedForce, another bias on the variable, ramp, cap, periodic zero-mean, applyBias, stepZeroData) and every history of bins/system forces/run boundaries/restarts up to the bound, that the implementation-shaped ABF mechanism yields exactly the per-bin counts and sums the history prescribes and the documented applied force. Conformance: every depth-3 behaviour class (sampled in the quick tier) and random deeper behaviours are replayed into the real code comparing samples, gradients, variable force, atom force and total force after every call; seeded random executions of the real code are validated event by event against the spec (all invariants evaluated on every recorded state).",
+    note="Trusted: TLC; the engine simulator's force-timing model; one scalar variable (distanceZ of one atom) so geometry is the identity; observation of the count/gradient grids through the saved state text. Bounds: 3-4 bins, <= 6 steps exhaustive (9-14 in simulation / recorded runs), <= 3 runs. Multi-dimensional ABF, eABF/CZAR and hideJacobian with a non-zero Jacobian are not covered by this check.",
+)
+
